@@ -45,6 +45,9 @@ def cut (max : Option Nat) (g : Option Nat) : Option Nat :=
 
 def handle (inp out : List String) : String :=
   match inp with
+  | ["known", want, what] =>
+    -- a graph beyond the list-based model whose local girth is known by construction (C11.local_girth_exact / local_girth_bounded say what it must be)
+    verdict [want] out (if out ≠ [want] then some ("local-girth-is-not-the-shortest-cycle-through-the-node (" ++ what ++ ", expected " ++ want ++ ")") else none)
   | [r, c, root, mx] =>
     match parseSM r c, parseNode root with
     | some h, some root =>
